@@ -737,6 +737,10 @@ impl<'r> G<'r> {
             let pre = self.simple_stmt();
             self.emit(vec![pre, head]);
             self.feat("FOR-mid-line");
+        } else if self.rng.chance(1, 5) {
+            // `FOR ... :` — the loop resumes at a `:` with nothing behind it
+            self.feat("FOR-trailing-colon");
+            self.emit(vec![head, Stmt::Empty]);
         } else {
             self.emit(vec![head]);
         }
@@ -807,6 +811,10 @@ impl<'r> G<'r> {
         if self.rng.chance(1, 3) {
             line.push(self.simple_stmt());
             self.feat("GOSUB-mid-line");
+        } else if self.rng.chance(1, 5) {
+            // `GOSUB n :` — RETURN comes back to a `:` with nothing behind it
+            line.push(Stmt::Empty);
+            self.feat("GOSUB-trailing-colon");
         }
         self.emit(line);
     }
